@@ -6,6 +6,8 @@
 #include "vdrive.hpp"
 #include "base/netstring.hpp"
 #include "base/fifo.hpp"
+#include "base/stdiostream.hpp"
+#include "base/configobject.hpp"
 #include "base/json.hpp"
 #include "base/array.hpp"
 #include "base/dictionary.hpp"
@@ -22,6 +24,10 @@
 #include <sys/socket.h>
 #include <unistd.h>
 #include <sys/wait.h>
+#include <sys/time.h>
+#include <signal.h>
+#include <fstream>
+#include <sstream>
 #include <thread>
 #include <atomic>
 #include <cstring>
@@ -121,6 +127,150 @@ static struct NsCaseEnd {
 } l_NsCaseEnd;
 
 // ---------------------------------------------------------------------------------------------------------
+// buffered variant up to the END of the stream: the loop every production caller runs
+//     for (;;) { srs = ReadStringFromStream(...); if (srs == StatusEof) break; if (srs != StatusNewItem) continue; handle }
+// driven with a bound on the number of calls (a reader that never reports the end shows up as end=loop, not as a hang).
+// mode=chunk: a Stream that hands the scripted chunks to StreamReadContext::FillFromStream one per fill and then is at EOF;
+// mode=stdio: the real StdioStream over a std::istringstream; mode=file: the real StdioStream over a std::fstream of a
+// temporary file (what RestoreObjects / ReplayLog / the CLI list readers use).
+namespace {
+class ChunkStream final : public Stream
+{
+public:
+	explicit ChunkStream(std::vector<std::string> chunks) : m_Chunks(std::move(chunks)) { }
+	size_t Read(void *buffer, size_t count) override
+	{
+		if (m_Idx >= m_Chunks.size()) return 0;
+		const std::string& c = m_Chunks[m_Idx];
+		size_t n = std::min(count, c.size() - m_Off);
+		if (n && buffer) std::memcpy(buffer, c.data() + m_Off, n);
+		m_Off += n;
+		if (m_Off >= c.size()) { m_Idx++; m_Off = 0; }
+		return n;
+	}
+	void Write(const void *, size_t) override { throw std::runtime_error("read-only"); }
+	bool IsEof() const override { return m_Idx >= m_Chunks.size(); }
+private:
+	std::vector<std::string> m_Chunks;
+	size_t m_Idx = 0, m_Off = 0;
+};
+}
+
+static std::vector<std::string> SplitChunks(const std::string& hexlist);
+
+static std::string TempFileWith(const std::string& content)
+{
+	char path[] = "/tmp/vdrive-c20-XXXXXX";
+	int fd = mkstemp(path);
+	if (fd < 0) throw std::runtime_error("mkstemp");
+	size_t off = 0;
+	while (off < content.size()) {
+		ssize_t k = ::write(fd, content.data() + off, content.size() - off);
+		if (k <= 0) { ::close(fd); ::unlink(path); throw std::runtime_error("write"); }
+		off += (size_t)k;
+	}
+	::close(fd);
+	return path;
+}
+
+// ns_eof max=<n> mode=chunk|stdio|file <hex>[,<hex>...]
+VOP(ns_eof)
+{
+	long max = a.num("max", -1);
+	std::string mode = a.str("mode", "chunk");
+	std::vector<std::string> chunks = SplitChunks(a.pos.at(0));
+	std::string whole;
+	for (auto& c : chunks) whole += c;
+	Stream::Ptr stream;
+	std::stringstream iss;
+	std::fstream fp;
+	std::string path;
+	if (mode == "chunk") {
+		stream = new ChunkStream(chunks);
+	} else if (mode == "stdio") {
+		iss.str(whole);
+		stream = new StdioStream(&iss, false);
+	} else {
+		path = TempFileWith(whole);
+		fp.open(path.c_str(), std::ios_base::in | std::ios_base::binary);
+		stream = new StdioStream(&fp, false);
+	}
+	StreamReadContext ctx;
+	std::string items;
+	std::string end = "loop";
+	int sticky = -1;
+	// the theorem's bound for the model is |input| + |fills| + 1 calls; the harness is deliberately more generous
+	size_t bound = 4 * (whole.size() + chunks.size()) + 64;
+	try {
+		String message;
+		for (size_t calls = 0; calls < bound; calls++) {
+			StreamReadStatus srs = NetString::ReadStringFromStream(stream, &message, ctx, false, max);
+			if (srs == StatusEof) { end = "eof"; break; }
+			if (srs != StatusNewItem) continue;
+			if (!items.empty()) items += ",";
+			items += HexEnc(message.GetData());
+		}
+		if (end == "eof") {
+			sticky = 1;
+			size_t before = ctx.Size;
+			for (int k = 0; k < 3; k++) {
+				String m2;
+				if (NetString::ReadStringFromStream(stream, &m2, ctx, false, max) != StatusEof || ctx.Size != before) sticky = 0;
+			}
+		}
+	} catch (const std::exception&) {
+		end = "err";
+	}
+	if (!path.empty()) { fp.close(); ::unlink(path.c_str()); }
+	Out("ns_eof items=" + (items.empty() ? std::string(".") : items) + " end=" + end +
+		" size=" + (end == "eof" ? std::to_string(ctx.Size) : std::string("-")) +
+		" sticky=" + (sticky < 0 ? std::string("-") : std::to_string(sticky)));
+}
+
+// ns_restore <hex>: the production loop itself - ConfigObject::RestoreObjects on a file with this content, in a forked child
+// with a CPU-time limit (a loop that never sees StatusEof spins; the child is killed and "hang" is reported)
+VOP(ns_restore)
+{
+	std::string content = HexDec(a.pos.at(0));
+	std::string path = TempFileWith(content);
+	int pfd[2];
+	if (pipe(pfd) != 0) throw std::runtime_error("pipe");
+	pid_t pid = fork();
+	if (pid == 0) {
+		::close(pfd[0]);
+		struct itimerval tv;
+		std::memset(&tv, 0, sizeof tv);
+		tv.it_value.tv_sec = 2;
+		signal(SIGPROF, SIG_DFL);
+		setitimer(ITIMER_PROF, &tv, nullptr);
+		alarm(60);
+		std::string res;
+		try {
+			ConfigObject::RestoreObjects(path, FAState);
+			res = "done";
+		} catch (const std::exception&) {
+			res = "err";
+		}
+		(void)!write(pfd[1], res.data(), res.size());
+		_exit(0);
+	}
+	::close(pfd[1]);
+	char buf[64];
+	ssize_t k;
+	std::string got;
+	while ((k = read(pfd[0], buf, sizeof buf)) > 0) got.append(buf, k);
+	::close(pfd[0]);
+	int status = 0;
+	waitpid(pid, &status, 0);
+	::unlink(path.c_str());
+	std::string res;
+	if (WIFEXITED(status) && WEXITSTATUS(status) == 0 && !got.empty()) res = got;
+	else if (WIFSIGNALED(status) && (WTERMSIG(status) == SIGPROF || WTERMSIG(status) == SIGALRM)) res = "hang";
+	else res = "crash status=" + std::to_string(WIFSIGNALED(status) ? WTERMSIG(status) : -WEXITSTATUS(status));
+	Out("ns_restore " + res);
+}
+
+// ---------------------------------------------------------------------------------------------------------
 // stream variant over a real TLS session (AsioTlsStream is a concrete type; there is no way to call
 // NetString::ReadStringFromStream(const Shared<AsioTlsStream>::Ptr&, ...) without one)
 static boost::asio::ssl::context& ServerCtx()
@@ -145,7 +295,7 @@ static boost::asio::ssl::context& ServerCtx()
 }
 
 // client side: plain OpenSSL on the other end of the socketpair; one SSL_write per chunk, then close
-static void ClientThread(int fd, std::vector<std::string> chunks)
+static void ClientThread(int fd, std::vector<std::string> chunks, bool abrupt)
 {
 	SSL_CTX *c = SSL_CTX_new(TLS_client_method());
 	SSL *s = SSL_new(c);
@@ -154,7 +304,8 @@ static void ClientThread(int fd, std::vector<std::string> chunks)
 		for (auto& ch : chunks) {
 			if (!ch.empty()) SSL_write(s, ch.data(), (int)ch.size());
 		}
-		SSL_shutdown(s);
+		// clean: close_notify, then the transport is closed; abrupt: the transport is closed in the middle of the TLS session
+		if (!abrupt) SSL_shutdown(s);
 	}
 	SSL_free(s);
 	SSL_CTX_free(c);
@@ -211,7 +362,7 @@ VOP(nss_read)
 	std::vector<std::string> chunks = SplitChunks(a.pos.at(0));
 	int sv[2];
 	if (socketpair(AF_UNIX, SOCK_STREAM, 0, sv) != 0) throw std::runtime_error("socketpair");
-	std::thread client(ClientThread, sv[1], chunks);
+	std::thread client(ClientThread, sv[1], chunks, a.str("close", "clean") == "abrupt");
 	std::string line;
 	size_t rest = 0;
 	{
@@ -249,6 +400,149 @@ VOP(nss_read)
 	Out("nss_read " + line + " rest=" + std::to_string(rest));
 }
 
+// nss_msg max=<n> mode=sync|co close=clean|abrupt <hex>[,<hex>...]: what JsonRpcConnection::HandleIncomingMessages does with the
+// stream - JsonRpc::ReadMessage, then JsonRpc::DecodeMessage (a message that does not decode is dropped, the connection goes on) -
+// until ReadMessage throws.  A message is handed over complete or not at all.
+static void Canon(const Value& v, std::string& out, int depth);
+
+VOP(nss_msg)
+{
+	long max = a.num("max", -1);
+	bool co = a.str("mode", "sync") == "co";
+	std::vector<std::string> chunks = SplitChunks(a.pos.at(0));
+	int sv[2];
+	if (socketpair(AF_UNIX, SOCK_STREAM, 0, sv) != 0) throw std::runtime_error("socketpair");
+	std::thread client(ClientThread, sv[1], chunks, a.str("close", "clean") == "abrupt");
+	std::string items, msgs, end = "short";
+	auto loop = [&](auto&& readOne) {
+		for (int guard = 0; guard < 100000; guard++) {
+			String js;
+			try {
+				js = readOne();
+			} catch (const std::invalid_argument&) {
+				end = "err";
+				break;
+			} catch (const std::exception&) {
+				end = "short";
+				break;
+			}
+			if (!items.empty()) { items += ","; msgs += ";"; }
+			items += HexEnc(js.GetData());
+			try {
+				Dictionary::Ptr d = JsonRpc::DecodeMessage(js);
+				std::string c;
+				Canon(d, c, 0);
+				msgs += c;
+			} catch (const std::exception&) {
+				msgs += "E";
+			}
+		}
+	};
+	{
+		boost::asio::io_context io;
+		auto stream = Shared<AsioTlsStream>::Make(io, ServerCtx());
+		stream->lowest_layer().assign(boost::asio::ip::tcp::v4(), sv[0]);
+		if (!co) {
+			stream->next_layer().handshake(boost::asio::ssl::stream_base::server);
+			loop([&]() { return JsonRpc::ReadMessage(stream, (ssize_t)max); });
+		} else {
+			IoEngine::SpawnCoroutine(io, [&](boost::asio::yield_context yc) {
+				stream->next_layer().async_handshake(boost::asio::ssl::stream_base::server, yc);
+				loop([&]() { return JsonRpc::ReadMessage(stream, yc, (ssize_t)max); });
+			});
+			io.run();
+		}
+		boost::system::error_code ec;
+		stream->lowest_layer().close(ec);
+	}
+	client.join();
+	Out("nss_msg items=" + (items.empty() ? std::string(".") : items) + " msgs=" + (msgs.empty() ? std::string(".") : msgs) + " end=" + end);
+}
+
+// ns_wbig n=<len> via=buf|tls max=<n>: the REAL writers on a payload of n bytes made here (byte i = (i*131+7)&255), read back by the
+// REAL readers.  via=buf: WriteStringToStream(std::ostream&) and WriteStringToStream(Stream::Ptr) (must agree), then the buffered
+// reader over a StdioStream up to the end.  via=tls: both ends are AsioTlsStreams on a socketpair, the coroutine writer
+// (+ async_flush, as JsonRpcConnection::WriteOutgoingMessages does) against the coroutine reader.
+// Printed: the header the writer produced, the total number of bytes, the last byte, whether exactly the payload came back.
+VOP(ns_wbig)
+{
+	size_t n = (size_t)a.num("n", 0);
+	long max = a.num("max", -1);
+	std::string via = a.str("via", "buf");
+	std::string payload(n, '\0');
+	for (size_t i = 0; i < n; i++) payload[i] = (char)((i * 131 + 7) & 255);
+	String str(payload);
+	std::ostringstream os;
+	NetString::WriteStringToStream(os, str);
+	std::string wire = os.str();
+	size_t colon = wire.find(':');
+	std::string hdr = wire.substr(0, colon == std::string::npos ? 0 : colon + 1);
+	int back = 0, err = 0, same = 1;
+	if (via == "buf") {
+		FIFO::Ptr fifo = new FIFO();
+		size_t ret = NetString::WriteStringToStream(fifo, str);
+		std::string viaFifo(fifo->GetAvailableBytes(), '\0');
+		if (!viaFifo.empty()) fifo->Read(&viaFifo[0], viaFifo.size());
+		if (viaFifo != wire || ret != wire.size()) same = 0;
+		std::stringstream ss(wire);
+		Stream::Ptr stream = new StdioStream(&ss, false);
+		StreamReadContext ctx;
+		int items = 0;
+		bool ok = true, eof = false;
+		try {
+			String message;
+			for (size_t calls = 0; calls < wire.size() / 1024 + 64; calls++) {
+				StreamReadStatus srs = NetString::ReadStringFromStream(stream, &message, ctx, false, max);
+				if (srs == StatusEof) { eof = true; break; }
+				if (srs != StatusNewItem) continue;
+				items++;
+				if (message.GetData() != payload) ok = false;
+			}
+		} catch (const std::exception&) {
+			err = 1;
+		}
+		back = (!err && eof && items == 1 && ok && ctx.Size == 0) ? 1 : 0;
+	} else {
+		int sv[2];
+		if (socketpair(AF_UNIX, SOCK_STREAM, 0, sv) != 0) throw std::runtime_error("socketpair");
+		boost::asio::io_context io;
+		boost::asio::ssl::context cctx(boost::asio::ssl::context::tls_client);
+		auto server = Shared<AsioTlsStream>::Make(io, ServerCtx());
+		auto client = Shared<AsioTlsStream>::Make(io, cctx);
+		server->lowest_layer().assign(boost::asio::ip::tcp::v4(), sv[0]);
+		client->lowest_layer().assign(boost::asio::ip::tcp::v4(), sv[1]);
+		size_t wrote = 0;
+		IoEngine::SpawnCoroutine(io, [&](boost::asio::yield_context yc) {
+			try {
+				server->next_layer().async_handshake(boost::asio::ssl::stream_base::server, yc);
+				String got = NetString::ReadStringFromStream(server, yc, (ssize_t)max);
+				back = got.GetData() == payload ? 1 : 0;
+			} catch (const std::invalid_argument&) {
+				err = 1;
+			} catch (const std::exception&) {
+				err = 2;
+			}
+			boost::system::error_code ec;
+			server->lowest_layer().close(ec);
+		});
+		IoEngine::SpawnCoroutine(io, [&](boost::asio::yield_context yc) {
+			try {
+				client->next_layer().async_handshake(boost::asio::ssl::stream_base::client, yc);
+				wrote = NetString::WriteStringToStream(client, str, yc);
+				client->async_flush(yc);
+			} catch (const std::exception&) {
+				// the reader may have refused the frame and closed before everything was written
+			}
+		});
+		io.run();
+		boost::system::error_code ec;
+		client->lowest_layer().close(ec);
+		if (wrote != 0 && wrote != wire.size()) same = 0;
+	}
+	Out("ns_wbig hdr=" + HexEnc(hdr) + " total=" + std::to_string(wire.size()) + " last=" + HexEnc(wire.substr(wire.size() - 1)) +
+		" same=" + std::to_string(same) + " back=" + std::to_string(back) + " err=" + std::to_string(err));
+}
+
 // ---------------------------------------------------------------------------------------------------------
 // JSON: script syntax of values  n | t | f | i<dec> | d<16 hex digits of the binary64> | "<hex>" | [v,v] | {<hexkey>:v,...}
 struct VParser {
@@ -284,7 +578,7 @@ struct VParser {
 
 static std::string HexOrEmpty(const std::string& s) { return s.empty() ? "" : HexEnc(s); }
 
-static void Canon(const Value& v, std::string& out, int depth = 0)
+static void Canon(const Value& v, std::string& out, int depth)
 {
 	switch (v.GetType()) {
 		case ValueEmpty: out += "n"; return;
@@ -323,12 +617,40 @@ VOP(js_rt)
 	Value v = p.Parse();
 	try {
 		String enc = JsonEncode(v);
-		Value back = JsonDecode(enc);
+		Value back = a.str("dec", "net") == "trusted" ? JsonDecodeTrusted(enc) : JsonDecode(enc);
 		std::string c;
-		Canon(back, c);
+		Canon(back, c, 0);
 		Out("js_rt enc=" + (a.num("cmp", 1) ? HexEnc(enc.GetData()) : std::string("~")) + " dec=" + c);
 	} catch (const std::exception&) {
 		Out("js_rt err");
+	}
+}
+
+// js_long reps=<k> where=val|key dec=net|trusted <hexpattern>: a very long string (the pattern k times) built here, as a value or as
+// a dictionary key, through the real JsonEncode and back through the real decoder: length of the encoding, its first bytes,
+// and whether the decoded value equals the original
+VOP(js_long)
+{
+	std::string pat = HexDec(a.pos.at(0));
+	long reps = a.num("reps", 1);
+	std::string body;
+	body.reserve(pat.size() * reps);
+	for (long i = 0; i < reps; i++) body += pat;
+	bool key = a.str("where", "val") == "key";
+	Value v;
+	if (key) { Dictionary::Ptr d = new Dictionary(); d->Set(String(body), Empty); v = d; } else v = String(body);
+	try {
+		String enc = JsonEncode(v);
+		Value back = a.str("dec", "net") == "trusted" ? JsonDecodeTrusted(enc) : JsonDecode(enc);
+		bool same = false;
+		if (key) {
+			if (back.IsObjectType<Dictionary>()) { Dictionary::Ptr d = back; same = d->GetLength() == 1 && d->Contains(String(body)) && d->Get(String(body)).IsEmpty(); }
+		} else {
+			same = back.IsString() && back.Get<String>().GetData() == body;
+		}
+		Out("js_long len=" + std::to_string(enc.GetLength()) + " head=" + HexEnc(enc.GetData().substr(0, 12)) + " same=" + std::to_string(same ? 1 : 0));
+	} catch (const std::exception&) {
+		Out("js_long err");
 	}
 }
 
@@ -337,9 +659,9 @@ VOP(js_dec)
 {
 	std::string in = HexDec(a.pos.at(0));
 	try {
-		Value v = JsonDecode(String(in));
+		Value v = a.str("dec", "net") == "trusted" ? JsonDecodeTrusted(String(in)) : JsonDecode(String(in));
 		std::string c;
-		Canon(v, c);
+		Canon(v, c, 0);
 		Out("js_dec ok " + c);
 	} catch (const std::exception&) {
 		Out("js_dec err");
@@ -353,7 +675,7 @@ VOP(js_msg)
 	try {
 		Dictionary::Ptr d = JsonRpc::DecodeMessage(String(in));
 		std::string c;
-		Canon(d, c);
+		Canon(d, c, 0);
 		Out("js_msg ok " + c);
 	} catch (const std::exception&) {
 		Out("js_msg err");
@@ -374,7 +696,7 @@ VOP(js_deep)
 	std::string res;
 	auto run = [&]() {
 		try {
-			Value v = JsonDecode(String(doc));
+			Value v = a.str("dec", "net") == "trusted" ? JsonDecodeTrusted(String(doc)) : JsonDecode(String(doc));
 			// depth of what was built, iteratively
 			long depth = 0;
 			Value cur = v;
